@@ -156,6 +156,56 @@ def _forms(ctx, rng, case, ll, x, idx):
                        'case': case.describe()}, feats)
 
 
+def _user_error_models(ctx, rng, case, x):
+    """the error models arrive as ReducedErrorModels whose last parameter is
+    fixed (a known assay noise); the likelihood is the sum of the densities
+    under the error models it was constructed with - also after the user
+    has re-used their error-model objects with other fixed values"""
+    try:
+        model = case.mechanistic_model()
+        ems, keep, start = [], [], case.n_mech
+        keep += list(range(case.n_mech))
+        refix = []
+        for o, name in enumerate(case.em_names):
+            npar = D.ERROR_MODELS[name][0]
+            em = chi.ReducedErrorModel(getattr(chi, name)())
+            last = em.get_parameter_names()[-1]
+            em.fix_parameters({last: float(x[start + npar - 1])})
+            refix.append((em, last))
+            ems.append(em)
+            keep += list(range(start, start + npar - 1))
+            start += npar
+        ll = chi.LogLikelihood(
+            model, ems if (case.n_out > 1 or rng.random() < 0.5) else ems[0],
+            [y.copy() for y in case.obs], [t.copy() for t in case.times])
+        xr = np.asarray(x)[keep]
+        v1 = ll(xr)
+        for em, last in refix:
+            em.fix_parameters({last: float(rng.uniform(0.6, 0.9))})
+        v2 = ll(xr)
+        pw = ll.compute_pointwise_ll(xr)
+    except Exception as e:      # noqa
+        ctx.violation_exc('constructed_object_evaluates', e,
+                          {'case': case.describe(),
+                           'what': 'reduced error models'})
+        return
+    ctx.count('user_error_models_reused')
+    ref = float(np.real(case.ref_total(x)))
+    sc = abs(ref) + 1
+    if not ctx.close(v1, ref, rtol=1e-9, scale=sc):
+        ctx.violation('value_vs_bruteforce',
+                      'reduced_error_models',
+                      {'chi': v1, 'reference': ref,
+                       'case': case.describe()})
+    elif not (ctx.close(v2, ref, rtol=1e-9, scale=sc) and ctx.close(
+            float(np.sum(pw)), ref, rtol=1e-9, scale=sc)):
+        ctx.violation('value_vs_bruteforce',
+                      'follows_later_changes_of_the_users_error_models',
+                      {'at_construction': v1, 'after_the_user_refixed': v2,
+                       'pointwise_sum': float(np.sum(pw)),
+                       'reference': ref, 'case': case.describe()})
+
+
 def toy_case(ctx, rng, idx):
     case = G.LLCase(rng)
     ctx.case(case.signature(), case.nontrivial(), sample=case.describe())
@@ -177,6 +227,8 @@ def toy_case(ctx, rng, idx):
             if _compare(ctx, case, ll, w, tag='buffer') is None:
                 break
     _forms(ctx, rng, case, ll, x, idx)
+    if val is not None and idx % 5 == 2:
+        _user_error_models(ctx, rng, case, x)
     # boundary: a non-positive scale scores -inf (oracle: only "-inf")
     if idx % 7 == 0 and not any(len(t) == 0 for t in case.times):
         xb = x.copy()
